@@ -100,6 +100,25 @@ class FuncRun(FunctionEngine):
         # instantiate lemmas/axioms given by the contract
         for lab, a in self.norm_clauses(c.get('axioms', ())):
             st.assume(self.eval_spec(a, env0, st, pre=pre0))
+        # induction lemmas: proved here by the induction schema (base + step obligations), then available as facts
+        for lname, lem in (c.get('lemmas') or {}).items():
+            var = lem['var']
+            lo = self.coerce(self.eval_spec_expr(lem['lo'], env0, st, pre0), INT, st).t
+            hi = self.coerce(self.eval_spec_expr(lem['hi'], env0, st, pre0), INT, st).t
+            j = z3.Int(fresh_name('ind_' + var))
+
+            def stmt(term):
+                e2 = dict(env0)
+                e2[var] = V(INT, term)
+                return self.eval_spec(lem['stmt'], e2, st, pre=pre0)
+            if lem.get('direction', 'up') == 'up':
+                self.emit(st, 'lemma', f'{lname}:base', stmt(lo), tag='carrier')
+                self.emit(st, 'lemma', f'{lname}:step', z3.Implies(z3.And(lo <= j, j < hi, stmt(j)), stmt(j + 1)), tag='carrier')
+            else:
+                self.emit(st, 'lemma', f'{lname}:base', stmt(hi), tag='carrier')
+                self.emit(st, 'lemma', f'{lname}:step', z3.Implies(z3.And(lo <= j, j < hi, stmt(j + 1)), stmt(j)), tag='carrier')
+            q = z3.Int(fresh_name('lem_' + var))
+            st.assume(z3.ForAll([q], z3.Implies(z3.And(lo <= q, q <= hi), stmt(q))))
         pre = st.copy()
         self.func_pre = pre
         self.spec_pre = pre
@@ -151,7 +170,9 @@ class FuncRun(FunctionEngine):
             env['Y'] = cur.Y
         self.emit(cur, 'cover', 'path:' + ('/'.join(cur.trace) or 'straight'), z3.BoolVal(True), expect_sat=True)
         for lab, (exc, when) in (c.get('raises') or {}).items():
-            w = self.eval_spec(when, env0, pre, pre=pre)
+            pv = pre.copy()
+            pv.pc = cur.pc    # pre-state heap, current path condition (definitional facts of spec terms land here)
+            w = self.eval_spec(when, env0, pv, pre=pre)
             self.emit(cur, 'raises', f'{lab}:must-raise', z3.Not(w), tag='property')
         ens = c.get('ensures', {})
         for lab, item in ens.items():
@@ -168,7 +189,9 @@ class FuncRun(FunctionEngine):
         whens = []
         for lab, (e, when) in (c.get('raises') or {}).items():
             if e == exc:
-                whens.append(self.eval_spec(when, env0, pre, pre=pre))
+                pv = pre.copy()
+                pv.pc = cur.pc
+                whens.append(self.eval_spec(when, env0, pv, pre=pre))
         if whens:
             self.emit(cur, 'raises', f'{exc}:only-when', z3.Or(*whens), tag='property')
         elif exc in c.get('may_raise', ()):
